@@ -197,7 +197,7 @@ class Trace:
         self.evictions_regular = 0           # evicted while the memory threshold was NOT exceeded (first pass only)
         self.cleanups_exceeded = 0
         self.watch = False                   # hash every value when it is stored (C01 oracle)
-        self.stored_hash = {}                # key -> (id, checksum) at the moment of the store
+        self.stored_hash = {}                # key -> (the array object itself, checksum) at the moment of the store
         self.prov = {}                       # key -> (provenance hash, frozenset of alternatives of SOL_KEYS)
         self.childprov = []
 
@@ -315,7 +315,7 @@ def make_traced_class():
                 key = tr.stack[-1]
                 line = "done %s %s" % (key, self._val_words(self.data[key]))
                 if tr.watch:
-                    tr.stored_hash[key] = (id(self.data[key]), checksum(self.data[key]))
+                    tr.stored_hash[key] = (self.data[key], checksum(self.data[key]))
                 vid = self._ids[id(self.data[key])]
             del tr.dels[:]
             exceeded = get_size(self.data) >= self.memory_threshold_inGB * 1024 * 1024 * 1024
@@ -442,7 +442,10 @@ class Monitor:
     def __init__(self, rel, watch_values=False):
         self.rel = rel
         self.frozen = {}
-        self.watch = {} if watch_values else None      # key -> (id, checksum) of every cached entry seen so far
+        # key -> (the array object itself, checksum) of every cached entry seen so far.  The OBJECT is kept, not its
+        # id(): once an evicted array is freed CPython may hand the same address to the recomputed one, and a
+        # legitimately recomputed entry would then be reported as 'modified in place' (seen: intermittent false alarm)
+        self.watch = {} if watch_values else None
 
     def check_values(self, where):
         """every array still cached that was cached before must have the bytes it had then
@@ -453,18 +456,18 @@ class Monitor:
         seen = {}
         for k, v in self.rel.data.items():
             old = self.watch.get(k)
-            if old is not None and old[0] == id(v):
+            if old is not None and old[0] is v:
                 cs = checksum(v)
                 if cs != old[1]:
                     out.append(("cached entry modified in place", k, where))
-                seen[k] = (id(v), cs)
+                seen[k] = (v, cs)
             else:
                 cs = checksum(v)
                 st = self.rel._tr.stored_hash.get(k)
-                if st is not None and st[0] == id(v) and st[1] != cs:
+                if st is not None and st[0] is v and st[1] != cs:
                     # modified between its store and the end of the request that computed it
                     out.append(("cached entry modified in place", k, where))
-                seen[k] = (id(v), cs)
+                seen[k] = (v, cs)
         self.watch = seen
         return out
 
